@@ -894,8 +894,10 @@ class Explorer:
                                 st.store[dname] = ast.Dict(keys=keys, values=vals)
                         elif len(csub.args) > 1:
                             val = csub.args[1]
+                            self._emit(st, "defaulted", ast.Constant(value=key), cur, c, fi, depth)  # key absent: the default stands in
                         elif meth == "get":
                             val = ast.Constant(value=None)
+                            self._emit(st, "defaulted", ast.Constant(value=key), cur, c, fi, depth)
                         else:
                             self._emit(st, "call", csub, None, c, fi, depth)
                             self._emit(st, "keyerror", ast.Constant(value=key), cur, c, fi, depth)
